@@ -41,6 +41,13 @@ func constSym(s string) *SymStr {
 	return r
 }
 
+// EncStr is the text of a JSON encoding (string(js) of a model-encoded value): it is never inspected,
+// only compared; two encodings are the same text iff the encoded values are structurally equal
+// (encoding/json sorts map keys and formats equal numbers equally).
+type EncStr struct {
+	v Value
+}
+
 func toSym(v Value) *SymStr {
 	switch x := v.(type) {
 	case *SymStr:
@@ -98,6 +105,12 @@ func (ex *Exec) freshString(prefix string) *SymStr {
 
 // strEq: equality of two strings (either may be concrete).
 func strEq(a, b Value) Value {
+	if _, ok := a.(*EncStr); ok {
+		panic(engineErr("comparison of a JSON text outside Exec.equal"))
+	}
+	if _, ok := b.(*EncStr); ok {
+		panic(engineErr("comparison of a JSON text outside Exec.equal"))
+	}
 	if x, ok := a.(string); ok {
 		if y, ok := b.(string); ok {
 			return x == y
